@@ -1613,10 +1613,10 @@ SYSTEMS = [
     ReadOnlySystem('SV'), ReadOnlySystem('SA'),
     # closure: every history of any length of one vector of size 2 inside the lattice
     HeapSystem('c09.closure.v2', 2, ('v',), None, None, consts='full', tcap_q=60, tcap_t=480),
-    HeapSystem('c09.heap.n2', 2, ('v', 'w', 'u', 'm', 'A'), 2, 3, consts='small', tcap_q=60, tcap_t=240),
-    HeapSystem('c09.heap.n3', 3, ('v', 'w', 'm', 'A'), 2, 3, consts='small', tcap_q=60, tcap_t=240),
+    HeapSystem('c09.heap.n2', 2, ('v', 'w', 'u', 'm', 'A'), 2, 3, consts='small', tcap_q=60, tcap_t=200),
+    HeapSystem('c09.heap.n3', 3, ('v', 'w', 'm', 'A'), 2, 3, consts='small', tcap_q=60, tcap_t=200),
     # deep search over a small alphabet (no division): depth 3 (quick) / 6 (thorough, or the time cap)
     # aliasing inside the heap: r is the first ROW of A (NumPy semantics for overlapping operands: as if the operand were copied first)
     HeapSystem('c09.heap.alias', 2, ('v', 'A', 'r'), 2, 4, consts='tiny', lattice_q=(2, 8), lattice_t=(4, 32), tcap_q=60, tcap_t=180),
-    HeapSystem('c09.heap.deep', 2, ('v', 'w', 'A'), 3, 6, consts='tiny', lattice_q=(2, 8), lattice_t=(4, 32), tcap_q=60, tcap_t=180),
+    HeapSystem('c09.heap.deep', 2, ('v', 'w', 'A'), 3, 6, consts='tiny', lattice_q=(2, 8), lattice_t=(4, 32), tcap_q=60, tcap_t=150),
 ]
